@@ -182,6 +182,8 @@ def ops_table():
         ("apply(unsorted kv, identity)", lambda c: c.apply([F(0), F(2), F(1)], [[F(int(i == j)) for j in range(c.npts)] for i in range(c.npts)]), True),
         ("apply(kv, identity)", lambda c: c.apply(list(c.knotvector), [[F(int(i == j)) for j in range(c.npts)] for i in range(c.npts)]), True),
         # a weight function with a zero exactly AT a sample (the first knot): the refusal is a ValueError like every other refused weight list (D46)
+        # a non-numeric entry among removable knots: the refusal must come before anything is removed (D52)
+        ("knot_clean[1/2,3/2,(9,)]", lambda c: c.knot_clean([F(1, 2), F(3, 2), (F(9),)]), True),
         ("weights=zero-at-umin", lambda c: setattr(c, "weights", [F(0)] + [F(1)] * (c.npts - 1)), True),
         ("apply(kv, first row zero)", lambda c: c.apply(list(c.knotvector), [[F(int(i == j and i > 0)) for j in range(c.npts)] for i in range(c.npts)]), True),
     ]
@@ -280,14 +282,19 @@ def task_array_points():
         N = spec.basis(U, 2, 2, u)
         den = sum(n_ * w for n_, w in zip(N, Wt))
         return [sum(n_ * w * F(arr[i][d]) for i, (n_, w) in enumerate(zip(N, Wt))) / den for d in range(2)]
-    for kname, mk in kinds.items():
+    combos = [(kname, mk, "Fraction-knots,Fraction-weights", list(U), list(Wt)) for kname, mk in kinds.items()]
+    # the other number classes of knots and weights (an accumulator typed like the points must not be added / divided in place: D50)
+    combos += [("int64-rows-of-a-2d-array", kinds["int64-rows-of-a-2d-array"], "float-knots,int-weights", [float(x) for x in U], [1, 2, 3]),
+               ("float64-rows-of-a-2d-array", kinds["float64-rows-of-a-2d-array"], "Fraction-knots,float-weights", list(U), [1.0, 2.0, 3.0]),
+               ("int64-rows-of-a-2d-array", kinds["int64-rows-of-a-2d-array"], "Fraction-knots,int-weights", list(U), [1, 2, 3])]
+    for kname, mk, wname, Uc, Wc in combos:
         for oname, op in ops.items():
             bad = None
             try:
                 arr = mk()
                 keep = arr.copy()
-                c = Curve(list(U), arr, list(Wt))
-                sibling = Curve(list(U), arr, list(Wt))            # built from the same array
+                c = Curve(list(Uc), arr, list(Wc))
+                sibling = Curve(list(Uc), arr, list(Wc))            # built from the same array
                 try:
                     op(c)
                     raised = None
@@ -311,8 +318,9 @@ def task_array_points():
                             break
             except Exception as e:
                 bad = "%s: %s" % (type(e).__name__, str(e)[:100])
-            out.append(ob("%s:array-points-not-written[%s,%s]" % (fn, kname, oname), fn, FAILED if bad else PROVED, "B", "concrete", 0.0,
-                          bad or "the caller's array, a sibling curve and the curve's values are as before", dict(kind="c15.arrays", points=kname, op=oname) if bad else None))
+            tagk = kname if wname.startswith("Fraction-knots,Fraction") else "%s;%s" % (kname, wname)
+            out.append(ob("%s:array-points-not-written[%s,%s]" % (fn, tagk, oname), fn, FAILED if bad else PROVED, "B", "concrete", 0.0,
+                          bad or "the caller's array, a sibling curve and the curve's values are as before", dict(kind="c15.arrays", points=tagk, op=oname) if bad else None))
     # the same array OBJECT in two slots of one curve (a closed curve [p0, p1, p2, p0])
     bad = None
     try:
